@@ -24,7 +24,7 @@ class Check(BaseCheck):
             'both ways, upper and lower case); rows, composed labels ($ patterns x case) and non-label strings are generated '
             'from the seed. A case is non-trivial when its post-condition was fully evaluated (input inside the claimed domain); '
             'distinct = distinct (function, input).')
-    ASSUMPTIONS = ('labels whose row is 0 or has leading zeros are neither labels nor non-labels for this statement',
+    ASSUMPTIONS = ('labels whose row is 0 or has leading zeros are neither labels nor non-labels for this statement: they may decompose to nothing, or to the parts that were written',
                    'non-string arguments are outside the quantifier',
                    'the model computes bijective base-26 itself (hxmon/models/cells.py)')
 
@@ -39,6 +39,7 @@ class Check(BaseCheck):
             for i in range(4):
                 specs.append({'campaign': 'labels', 'n': 15000, 'seed': seed, 'i': i})
                 specs.append({'campaign': 'nonlabels', 'n': 15000, 'seed': seed, 'i': i})
+                specs.append({'campaign': 'zero_rows', 'n': 1500, 'seed': seed, 'i': i})
             specs.append({'campaign': 'parser', 'n': 4000, 'seed': seed, 'i': 0})
         else:
             rstep = 1048576 // 16
@@ -47,6 +48,7 @@ class Check(BaseCheck):
             for i in range(16):
                 specs.append({'campaign': 'labels', 'n': 200000, 'seed': seed, 'i': i})
                 specs.append({'campaign': 'nonlabels', 'n': 200000, 'seed': seed, 'i': i})
+                specs.append({'campaign': 'zero_rows', 'n': 20000, 'seed': seed, 'i': i})
                 specs.append({'campaign': 'parser', 'n': 30000, 'seed': seed, 'i': i})
         specs.append({'campaign': 'confusables'})
         return specs
@@ -180,6 +182,27 @@ class Check(BaseCheck):
                 rec.violation(key, label=s, got=got)
             rec.nt(('nonlabel', s))
             rec.sample({'non_label': s})
+
+    def c_zero_rows(self, spec, rec, hc):
+        """letters then digits that are not a *positive row number without leading zeros* (A0, B007, $C$00): the statement calls them neither
+        labels nor non-labels, so they may decompose to nothing - but if they decompose, the parts are still the parts that were written"""
+        rnd = self.rng(spec)
+        for _ in range(spec['n']):
+            col = ''.join(rnd.choice(string.ascii_letters) for _ in range(rnd.randint(1, 4)))
+            row = rnd.choice(['0', '00', '0%d' % rnd.randint(1, 99), '00%d' % rnd.randint(1, 999), '0' * rnd.randint(1, 5) + str(rnd.randint(0, 10 ** 6))])
+            ca, ra = rnd.choice(['', '$']), rnd.choice(['', '$'])
+            s = ca + col + ra + row
+            rec.case()
+            got = hc.extract_label(s)
+            if got == []:
+                rec.count('zero_or_padded_row.decomposes_to_nothing')
+                continue
+            rec.count('zero_or_padded_row.decomposes')
+            ok = (len(got) == 2 and got[1].index == m.col_index(col) and bool(got[1].is_absolute) == (ca == '$') and bool(got[0].is_absolute) == (ra == '$')
+                  and got[0].index in (int(row) - 1, -1))
+            if not ok:
+                rec.violation('C19/extract_label:padded-or-zero-row-decomposes-to-other-parts', label=s, got=got)
+            rec.nt(('zero-row', s))
 
     def c_confusables(self, spec, rec, hc):
         """every non-ASCII character whose upper/lower/casefold/NFKC form is an ASCII letter or digit, put where a letter or a
